@@ -88,12 +88,12 @@ func SortByAddr(keys []*Key) []*Key {
 }
 
 // HonestAttestation concatenates signatures of the given signers in address order;
-// vstyle: 0 -> v in {0,1}; 1 -> v in {27,28}; 2 -> alternate.
+// vstyle: 0 -> v in {0,1}; 1 -> v in {27,28}; 2 -> alternate, starting with {0,1}; 3 -> alternate, starting with {27,28}.
 func HonestAttestation(msg []byte, signers []*Key, vstyle int) []byte {
 	var out []byte
 	for i, k := range SortByAddr(signers) {
 		s := k.Sign(msg)
-		if vstyle == 1 || (vstyle == 2 && i%2 == 1) {
+		if vstyle == 1 || (vstyle == 2 && i%2 == 1) || (vstyle == 3 && i%2 == 0) {
 			s[64] += 27
 		}
 		out = append(out, s...)
